@@ -13,8 +13,10 @@
 EXTENDS JudgeTx, CGTxLoops, CGFamilies, CGGraph, IOUtils
 
 Strip(f) == {x \in f : ~HasPrefix(x, "DRIFT:")}
-VARIABLES kind, c0, k, F
-vars == <<kind, c0, k, F>>
+\* go: the relations are evaluated on the SUCCESSOR of each initial state, so that TLC's workers share the work
+\* (initial states are generated and checked by a single thread)
+VARIABLES kind, c0, k, F, go
+vars == <<kind, c0, k, F, go>>
 
 (* ---- acyclic_unroll on cyclic circuits ---- *)
 GN(i) == "g" \o ToString(i)
@@ -28,13 +30,13 @@ CycCirc(E, T, O) ==
    fi  |-> [q \in 1..6 |-> IF q > 3 THEN <<>> ELSE SelectSeq(<<1, 2, 3>>, LAMBDA p : <<p, q>> \in E) \o <<q + 3>>],
    bbs |-> <<>>, acyc |-> FALSE]
 CycFam == {CycCirc(E, T, O) : E \in {X \in SUBSET PairsNE(3) : ~AcyclicEdges(1..3, X)}, T \in Typings, O \in {{1}, {2, 3}, {1, 2, 3}}}
-InitAcyclicUnroll == /\ kind = "acyclic_unroll" /\ k = 0
+InitAcyclicUnroll == /\ go = FALSE /\ kind = "acyclic_unroll" /\ k = 0
                      /\ c0 \in CycFam
                      /\ F \in FasNodeSets(ToNamed(c0))
 AcyclicUnrollEvent == [c |-> c0, r |-> Indexed(AcyclicUnrollModel(ToNamed(c0), F)), exc |-> ""]
-AcyclicUnrollOK == kind = "acyclic_unroll" => Strip(Judge_acyclic_unroll_cyclic(AcyclicUnrollEvent)) = {}
+AcyclicUnrollOK == go /\ kind = "acyclic_unroll" => Strip(Judge_acyclic_unroll_cyclic(AcyclicUnrollEvent)) = {}
 \* the feedback set is read back from the aux_in_<f> names, as the judge does for recorded results
-HintReadsFeedback == kind = "acyclic_unroll" =>
+HintReadsFeedback == go /\ kind = "acyclic_unroll" =>
    LET r == AcyclicUnrollEvent.r  A == InputNames(r) \ InputNames(c0) IN
    HintUsable(c0, A) /\ {AuxHint(c0, A)[a] : a \in A} = F
 
@@ -43,23 +45,33 @@ HintReadsFeedback == kind = "acyclic_unroll" =>
 Retyped(c, t) == [c EXCEPT !.ty = [q \in 1..c.n |-> IF c.ty[q] = "input" THEN "input" ELSE t]]
 Full == "MC_FULL" \in DOMAIN IOEnv          \* thorough tier: the 6-node shapes too
 Shapes == {Retyped(c, t) : c \in DAG5(0) \cup (IF Full THEN DAG6(0) ELSE {}), t \in {"and", "xor", "nor"}}
-InitLimitFanout == /\ kind = "limit_fanout" /\ F = {}
+InitLimitFanout == /\ go = FALSE /\ kind = "limit_fanout" /\ F = {}
                    /\ c0 \in Shapes /\ k \in {2, 3}
                    /\ MaxFanout(c0) > k
-LimitFanoutOK == kind = "limit_fanout" =>
+LimitFanoutOK == go /\ kind = "limit_fanout" =>
    \A st \in LimitFanoutResults(ToNamed(c0), k) :
       Strip(Judge_limit_fanout([c |-> c0, r |-> Indexed(st), k |-> k, exc |-> ""])) = {}
 
 (* ---- insert_registers ---- *)
 Flop == [type |-> "ff", ins |-> {"clk", "d"}, outs |-> {"q"}]
-InitInsertRegs == /\ kind = "insert_registers" /\ F = {}
+InitInsertRegs == /\ go = FALSE /\ kind = "insert_registers" /\ F = {}
                   /\ c0 \in Shapes /\ k \in 1..3
 Transparent(st) ==
   [st EXCEPT !.ty = [x \in st.nodes |-> IF st.ty[x] = "bb_output" THEN "buf" ELSE st.ty[x]],
              !.edges = st.edges \cup {<<Pin(b, "d"), Pin(b, "q")>> : b \in DOMAIN st.bbs}]
-InsertRegsOK == kind = "insert_registers" =>
+InsertRegsOK == go /\ kind = "insert_registers" =>
    LET m == InsertRegistersModel(ToNamed(c0), k, Flop, "d", "q", << <<"clk", "clk">> >>) IN
    IF ~m.ok THEN RoundDiv(Max({0} \cup {LongestFrom(c0)[i] : i \in 1..c0.n}), k + 1) = 0
    ELSE Strip(Judge_insert_registers([c |-> c0, r |-> IndexedB(m.st), rt |-> IndexedB(Transparent(m.st)), k |-> k, latch |-> FALSE, exc |-> ""])) = {}
-Next == UNCHANGED vars
+(* ---- sensitivity_transform: every two-gate circuit over a, b, c (fan-in <= 2), the node g2, every enumeration order ---- *)
+SFam == {c \in G2ok(0) : c.ty[4] \in (IF Full THEN {"and", "xor", "not", "nor"} ELSE {"and", "not"})
+                         /\ c.ty[5] \in (IF Full THEN {"and", "xor", "nand", "buf"} ELSE {"xor", "nand"})
+                         /\ Len(c.fi[4]) <= 2 /\ Len(c.fi[5]) <= 2
+                         /\ (Full \/ (Len(c.fi[4]) = 2 /\ 4 \in Range(c.fi[5])))}
+InitSens == /\ go = FALSE /\ kind = "sensitivity_transform" /\ k = 0 /\ F = {}
+            /\ c0 \in SFam
+SensTxOK == go /\ kind = "sensitivity_transform" =>
+   \A st \in SensitivityResults(ToNamed(c0), "g2") :
+      Strip(Judge_sensitivity_transform([c |-> c0, node |-> "g2", sen |-> Indexed(st), exc |-> ""])) = {}
+Next == go = FALSE /\ go' = TRUE /\ UNCHANGED <<kind, c0, k, F>>
 =============================================================================
